@@ -316,6 +316,8 @@ def gen_emacs(rng, n, history=False, extra=()):
                 ks.append("M--")
             for _ in range(rng.choice([1, 1, 1, 2])):
                 ks.append("M-" + rng.choice("123456789"))
+            if rng.random() < 0.15:
+                ks.append("M-" + rng.choice("\u00b2\u00bd\u0663\uff13"))      # numeric characters that are no ASCII digits: no argument
             if rng.random() < 0.3:
                 ks.append(rng.choice("0123456789"))
             ks.append(rng.choice(TEXT[:6] + EMACS_MOVES[:6] + EMACS_EDITS))
@@ -606,7 +608,8 @@ def c13_cases(tier, seed):
     return cases
 
 
-CAND_POOL = ["foo", "foobar", "foo bar", "fo", "f", "food", "é", "éa", "日本", "ba", "bar", "baz", "", "x y", "abc", "abd"]
+CAND_POOL = ["foo", "foobar", "foo bar", "fo", "f", "food", "é", "éa", "日本", "ba", "bar", "baz", "", "x y", "abc", "abd",
+             "日月", "日本語", "\U0001F600a", "\U0001F601b"]      # (candidates that part INSIDE a 3- or 4-byte character)
 
 
 # candidates about as wide as (or wider than) a narrow window: the listing's column arithmetic
